@@ -10,14 +10,21 @@ from harness import core, codec
 from harness.props import editing as ed
 
 RULE = ("(1) value tables: Nodes.typed_value on every text of length <= 3 over a 16-character alphabet plus a word list, and "
-        "Nodes.make_new_node / wrap_type over the full grid value x format x anchored-or-not, compared with the model; "
+        "Nodes.make_new_node / wrap_type over the full grid value x format x anchored-or-not, compared with the model - the texts "
+        "and values include TEXT SPELLED LIKE A PYTHON LITERAL: simple quoted string literals ('abc', \"two words\", ''), integer "
+        "look-alikes (an int for ast.literal_eval, a ValueError for int(): 0x1F, -0o17, 0b101, (1), (-12), - 5; a fixed list + 300 "
+        "seeded ones) and neighbours of both classes; "
         "(2) single edits: seeded random documents (repeated equal small ints and one-character strings, values equal to key "
         "names, anchored scalars aliased under map keys and inside sequences, sets and empty containers as bystanders) x paths "
         "built from the document (exact incl. negative indexes, wildcards, slices, searches, keyword searches incl. name(), "
-        "anchors, collectors) x new values of every scalar type x every modelled format: the matched nodes are gathered by the "
+        "anchors, collectors) x new values of every scalar type (10 % of them literal-looking texts as in (1): in the DEFAULT format "
+        "the set must go ahead and every target hold THAT TEXT, theorem literal_text_kept) x every modelled format: the matched nodes are gathered by the "
         "real evaluator on a twin, set_value(mustexist=True) runs on the real document, and the WHOLE document afterwards "
         "(canonical form incl. anchors) must equal the Lean specification setSpec (proved equal to the model); a quarter of the "
-        "cases are also dumped with yamlpath's editor and reloaded with its strict loader and the data compared; "
+        "cases are also dumped with yamlpath's editor and reloaded with its strict loader and the data compared - and, when the "
+        "unedited document dumps with all its anchor names, the anchor name (or none) of every value node of the DUMPED TEXT "
+        "(ruamel compose, document order) must equal that of the edited document in memory (anchored scalars with and without "
+        "aliases; also in part (5)); "
         "(3) histories of <= 8 (quick) / <= 30 (thorough) mixed set / delete / create steps compared after every step and at the end; "
         "(4) real code only (merge keys are outside the model): seeded YAML texts with merge keys (1-3 anchored source maps "
         "holding plain and anchored scalars, nested maps/lists, sources merging sources; consumers merging one or several "
@@ -98,7 +105,12 @@ def gen_cases(rng, n):
         doc = ed.gen_doc(rng)
         for _ in range(3):
             v = rng.choice(ed.VALUES)
-            cases.append({"doc": doc, "path": ed.gen_path(rng, doc), "v": [v[0], v[1]], "fmt": rng.choice(ed.FORMATS),
+            fmt = rng.choice(ed.FORMATS)
+            if rng.random() < 0.1:
+                # text spelled like a Python literal: quoted string literals, integer look-alikes (0x1F, 0o17, (1), - 5)
+                v = ("str", gen_literal_text(rng))
+                fmt = rng.choice(["DEFAULT", "DEFAULT", fmt])
+            cases.append({"doc": doc, "path": ed.gen_path(rng, doc), "v": [v[0], v[1]], "fmt": fmt,
                           "reload": rng.random() < 0.25})
     return cases
 
@@ -180,12 +192,31 @@ WORDS = ["true", "True", "TRUE", "false", "False", "None", "none", "null", "yes"
          "1234567890123456", "0.1", ".5", "5.", "x1", "_a", "if", "not", "a.", "a-", "lambda", "1 ", " 1", "--1", "+-1", "1.2.3"]
 
 
+# Texts spelled like Python literals (every text handed to set_value goes through ast.literal_eval): simple quoted string
+# literals, integer look-alikes (an int for literal_eval, a ValueError for int()) - both must end as THAT TEXT - and
+# neighbours of the two classes (mostly outside the model, then skipped and counted).
+LIT_TEXTS = ["'abc'", '"abc"', "''", '""', "'two words'", '"two words"', "'5'", '"true"', "'1.5'", "'None'", "'it\"s'", '"it\'s"',
+             "'x*'", "' pad '", "'é'", "'a.b'", "'#'", "'0x1F'",
+             "0x1F", "0X1f", "0x0", "0xdeadBEEF", "-0x10", "+0x10", "0o17", "0O7", "-0o17", "0b101", "0B0", "-0b1", "(1)", "(0)", "(12)",
+             "(-12)", "(+5)", "- 5", "+ 5", "- 0", "(300)",
+             "'a'b'", "'a\\nb'", "'abc", "abc'", "'", "'" * 3 + "a" + "'" * 3, "0x", "0xg", "0b102", "0o8", "0x1_f", "(1.5)", "(01)", "()",
+             "((1))", "( 1)", "-  5", "(True)", "[1]", "(1,2)", "1j", "b'ab'", "'a' 'b'"]
+
+
+def gen_literal_text(rng):
+    from harness.props import c09
+    return c09.gen_literal_text(rng)
+
+
 def table_check(chk):
     """typed_value / make_new_node / wrap_type of the real code against the model, on a complete small grid."""
     import itertools
     from yamlpath.common import Nodes
     from yamlpath.enums import YAMLValueFormats
-    texts = set(WORDS)
+    texts = set(WORDS) | set(LIT_TEXTS)
+    lrng = random.Random(chk.seed ^ 0x5EED)
+    lits = set(LIT_TEXTS) | set(gen_literal_text(lrng) for _ in range(300))
+    texts |= lits
     for n in range(0, 4):
         for t in itertools.product(TYPED_ALPHABET, repeat=n):
             texts.add("".join(t))
@@ -206,11 +237,24 @@ def table_check(chk):
             rj = {"k": "str"} if isinstance(real, str) and real == t else codec.scalar_to_json(real)
         except Exception:
             rj = {"k": "other", "v": repr(real)}
+        if a.get("lit") == "int-lookalike":
+            # the class is DEFINED as: literal_eval yields an int, int(text) raises ValueError
+            chk.count("typed:int-lookalike")
+            try:
+                int(t)
+                readable = True
+            except ValueError:
+                readable = False
+            if type(real) is int and not readable:
+                continue
+            rj = {"k": "not-an-int-lookalike", "v": repr(real)}
+        elif a.get("k") == "str" and "v" in a:
+            chk.count("typed:quoted-literal")
         if rj != a:
             bad += 1
             chk.disagreement("typed-value-table", "Nodes.typed_value(%r) = %r, model says %s" % (t, real, a), {"text": t})
     # make_new_node grid
-    vals = ed.VALUES + [("str", w) for w in WORDS]
+    vals = ed.VALUES + [("str", w) for w in WORDS] + [("str", w) for w in sorted(lits)]
     fmts = sorted(set(ed.FORMATS))
     reqs, metas = [], []
     for v in vals:
@@ -245,6 +289,12 @@ def table_check(chk):
         # wrap_type
         m = a["wrap"]
         if f == fmts[0] and m.get("err") != "outOfModel":
+            from harness.props import c09
+            if c09.is_int_lookalike(v[1]):
+                # wrap_type is the value of CREATED nodes: the pinned code lets the ValueError of ScalarInt(text) escape
+                # there (known finding C09-F4, judged by ./check C09 on creations; the model is as repaired)
+                chk.count("wrap:int-lookalike-left-to-C09")
+                continue
             chk.evaluations += 1
             res = ed.guarded(lambda: Nodes.wrap_type(v[1]))
             try:
@@ -1516,6 +1566,7 @@ def float_case(case, bump, viol, keys):
         return
     pre = ed.dump_reload(ed.build(j))
     reload_leg = pre[0] == "ok" and pre[1] == codec.strip_anchors(j)
+    anchors_leg = reload_leg and pre[3] == ed.anchor_seq(j)       # the unedited document dumps with every anchor name in place
     doc = ed.build(j)
     proc = Processor(core.quiet_logger(), doc)
     if mode == "obj":
@@ -1555,6 +1606,16 @@ def float_case(case, bump, viol, keys):
         got = sorted(set(json.dumps(node_at(rl[1], a)) for a in addrs if _has(rl[1], a)))
         viol.append(("float-set:reload:written-number-differs" + known,
                      what + ": dump + strict reload holds %s, written %s: %r" % (got, case["fv"], rl[2][:200]), rep))
+    elif rl[0] == "ok" and anchors_leg:
+        bump("float-set:reload:anchor-names-compared")
+        if rl[3] != ed.anchor_seq(after):
+            viol.append(("float-set:reload:anchor-names-differ", what + ": " + anchor_diff(after, rl[3]) + ": %r" % rl[2][:200], rep))
+
+
+def anchor_diff(after, seq):
+    """The anchor names of the value nodes in document order: edited document in memory vs its dump."""
+    return "the value nodes of the edited document carry the anchors %s (document order, - = none), the dumped text %s" % (
+        " ".join("&" + a if a else "-" for a in ed.anchor_seq(after)), " ".join("&" + a if a else "-" for a in (seq or [])))
 
 
 def _has(j, addr):
@@ -1677,11 +1738,14 @@ def _job(cases):
             if pre[0] != "ok" or pre[1] != codec.strip_anchors(j):
                 reload_leg = False
                 bump("reload:skipped-original-does-not-roundtrip")
+            anchors_leg = reload_leg and pre[3] == ed.anchor_seq(j)
         try:
             res, after, rl = real_set(j, path, v, case["fmt"], reload_leg)
         except codec.OutOfModel:
             stats["oom"] += 1
             continue
+        if rl is not None and len(rl) > 3 and not (reload_leg and anchors_leg):
+            rl = rl[:3]         # the unedited document does not reload with its anchor names: names not compared
         if rename:
             req = {"op": "C03.rename", "doc": j, "addrs": addrs, "key": v}
         else:
@@ -1750,6 +1814,12 @@ def judge(case, addrs, rename, res, after, rl, ans, bump, viol, disag, samples, 
             viol.append(("reload:" + rl[0] + (":" + rl[1] if rl[1] else ""), "the edited document does not dump/reload with yamlpath's own editor and strict loader: %r" % rl[2][:200], rep))
         elif rl[0] == "ok" and case["fmt"] in FMT_RELOADABLE and rl[1] != codec.strip_anchors(after):
             viol.append(("reload:data-differs", "dump + strict reload of the edited document yields different data: %r" % rl[2][:200], rep))
+        elif rl[0] == "ok" and len(rl) > 3 and rl[1] == codec.strip_anchors(after):
+            # "every ... anchor of the document is exactly as before": the anchor NAMES the reloaded nodes carry
+            bump("reload:anchor-names-compared")
+            if rl[3] != ed.anchor_seq(after):
+                viol.append(("reload:anchor-names-differ", "after set_value(%s, %r, %s): %s: %r" % (
+                    case["path"], case["v"][1], case["fmt"], anchor_diff(after, rl[3]), rl[2][:200]), rep))
     if len(samples) < 2 and len(addrs) > 1:
         samples.append({"path": case["path"], "addrs": addrs, "v": case["v"], "fmt": case["fmt"]})
 
